@@ -581,6 +581,37 @@ func genDispatchCase(r *prng.R) []string {
 	if r.Chance(20) {
 		pols = append(pols, pol{"g", "", "", "aux-all", prng.Pick(r, others), 0})
 	}
+	// a remedy that SETS the header a throttling remedy groups by (account orchestration over per-account keys, or
+	// api-key authentication), listed before or after it (the list is shuffled), while clients send that header with a
+	// placeholder / one of the keys / not at all: the throttle must group by what the earlier remedy put on the request
+	setterFam := r.Chance(25)
+	if setterFam {
+		e := eps[0]
+		eurl := spell[e.url]
+		for i := range pols {
+			if pols[i].scope == "e" && pols[i].url == eurl && pols[i].method == e.method && strings.HasPrefix(pols[i].rest, "kind=throttle") {
+				pols[i].rest = fmt.Sprintf("kind=throttle allowed=%d win=%d status=%d spill=0 renew=31 hdr=X-Group default=%s dpct=%s g=k1&%s g=k2&%s",
+					r.Range(2, 10), pols[i].win, prng.Pick(r, []int{0, 429, 503}), prng.Pick(r, []string{"allow", "block", "use_default_allocation"}),
+					prng.Pick(r, []string{"50/1", "10/1"}), prng.Pick(r, []string{"50/1", "20/1"}), prng.Pick(r, []string{"25/1", "10/1"}))
+			}
+		}
+		setter := "kind=acct hname=X-Group hvals=" + prng.Pick(r, []string{"k1,k2", "k1", "k2,k1,k1", "k1,zz"})
+		if r.Chance(35) {
+			setter = "kind=apikey hname=X-Group hvalue=" + prng.Pick(r, []string{"k1", "k2"})
+			// one authentication remedy per chain: the authentication plugin keeps per-endpoint state, two of them
+			// on one endpoint are its own subject
+			kept := pols[:0]
+			for _, q := range pols {
+				isAuth := q.rest == "kind=apikey" || q.rest == "kind=basic" || q.rest == "kind=oauth"
+				if isAuth && (q.scope == "g" || (q.url == eurl && q.method == e.method)) {
+					continue
+				}
+				kept = append(kept, q)
+			}
+			pols = kept
+		}
+		pols = append(pols, pol{"e", eurl, e.method, "group-key-setter", setter, 0})
+	}
 	if r.Chance(8) {
 		pols = append(pols, pol{"g", "", "", "fixed-all", "kind=fixed status=503", 0})
 	}
@@ -624,7 +655,11 @@ func genDispatchCase(r *prng.R) []string {
 		}
 		t = nextT(r, t, prng.Pick(r, dWins), true)
 		l := fmt.Sprintf("dreq url=%s method=%s t=%d", proto.Enc(url), method, t)
-		if r.Chance(50) {
+		if setterFam && r.Chance(80) {
+			if r.Chance(75) {
+				l += " h=X-Group&" + prng.Pick(r, []string{"placeholder", "placeholder", "k1", "k2", "a"})
+			}
+		} else if r.Chance(50) {
 			l += " h=X-Group&" + proto.Enc(prng.Pick(r, []string{"a", "b", "c", "A", longA, longB, longA, longB}))
 		}
 		if r.Chance(12) {
